@@ -427,7 +427,7 @@ func init() {
 	fw.Register(&fw.Property{
 		ID:     "C13",
 		Run:    runC13,
-		Rule:   "(a) each of the 47 modelled builtins on every argument tuple of arity <= 2 over a pool of ~45 boundary values (nil, empty/one/three-element list/vector/map/set, nested collections, negative/zero/len/len+1 indices, keyword vs string keys of the same spelling, colliding rename maps, vectors with spare capacity, sub-vector windows) and sampled tuples of arity 3; functions from a pool of 6 modelled functions; (b) seeded pipelines of 2-6 builtins whose stages consume earlier results; the result is compared with the independent model: exact value and kind where prescribed (unordered results as multisets), an error where the statement prescribes one, anything non-panicking where the documents are silent; distinct = distinct (builtin, boundary-class tuple)",
+		Rule:   "(a) each of the 47 modelled builtins on every argument tuple of arity <= 2 over a pool of ~45 boundary values (nil, empty/one/three-element list/vector/map/set, nested collections, negative/zero/len/len+1 indices, keyword vs string keys of the same spelling, colliding rename maps, vectors with spare capacity, sub-vector windows) and sampled tuples of arity 3; functions from a pool of 6 modelled functions; (b) seeded pipelines of 2-6 builtins whose stages consume earlier results; the result is compared with the independent model: exact value and kind where prescribed (unordered results as multisets), an error where the statement prescribes one, anything non-panicking where the documents are silent; distinct = distinct (builtin, boundary-class tuple); hash-map with four arguments over every pair of keys (equal keys: the later value wins)",
 		Assume: []string{"model rules: DESIGN.md Appendix A, written from README and tests/step*.mal", "Unspecified cells accept any non-panicking outcome"},
 		Finish: func(m *fw.Merged) {
 			for _, n := range colmodel.Names {
